@@ -1,6 +1,8 @@
 /- Kernel obligation: entries 0x2000..0x2fff of the live float16->code table `Gen.encE5M2O` pass `encChk`
-   (one sixteenth of the table per file so that lake checks them in parallel; assembled in Proofs/C11_Tables.lean). -/
-import BitstringModel.Model.C11
+   (one sixteenth of the table per file so that lake checks them in parallel; depends only on the specification and on
+   this table; assembled in Proofs/C11_Tables.lean). -/
+import BitstringModel.Model.C11_Spec
+import BitstringModel.Gen.LutEncE5M2O
 namespace BM.C11
-theorem encChunk_E5M2O_02 : encChunkOk .e5m2o 2 = true := by decide +kernel
+theorem encChunk_E5M2O_02 : encChunkOkT Gen.encE5M2O Fmt.e5m2 .overflow 2 = true := by decide +kernel
 end BM.C11
